@@ -114,11 +114,11 @@ def s_subcommands(eoe, **kw):
     fit.add_argument("--cfg", action=ActionConfigFile)
     fit.add_argument("--lr", type=float, default=0.1)
     fit.add_argument("--model", type=Optional[Base], default=None)
-    fa = ArgumentParser(exit_on_error=eoe)
+    fa = ArgumentParser()  # created with the default: must report failures the way the root parser does
     fa.add_argument("--pw", type=int, default=1)
     fb = ArgumentParser(exit_on_error=eoe)
     fb.add_argument("--q", type=DC)
-    test = ArgumentParser(exit_on_error=eoe)
+    test = ArgumentParser()  # idem
     test.add_argument("--ckpt", type=str, required=True)
     sc = p.add_subcommands(required=True)
     sc.add_subcommand("fit", fit)
